@@ -218,7 +218,9 @@ def main(tier):
     import os
 
     only = os.environ.get("VERIF_ONLY")
-    items = [(k, tier, seed) for k in ALL_SPECS if not only or only in k]
+    alph = "thorough" if tier == "quick" else "deep"  # cheap check: one alphabet notch deeper than its tier name
+    items = [(k, alph, seed) for k in ALL_SPECS if not only or only in k]
+    rep.extra["alphabet"] = alph
     parts = pmap(unit, items)
     parts += pmap(loop_unit, items)
     rep.merge_all(parts)
